@@ -10,8 +10,10 @@ From LV Require Export Model.PType Gen.PTypeObserved Gen.DocTable.
 Definition eff_ptype (k : cls) : ptype :=
   match doc_class_ptype k with Some p => p | None => observed_class_ptype k end.
 
+(* types, acceptance and exceptions from the documentation; the tilt bit from the implementation
+   (Model/PType.v:doc_machine) *)
 Definition documented : machine cls :=
-  doc_machine doc_mul doc_prop eff_ptype observed_class_tilts observed_fft_refuses_tilt.
+  doc_machine doc_mul doc_prop eff_ptype observed observed_fft_refuses_tilt.
 
 (* known finding C08-rotate-flip: these two documented classes cannot be applied at all *)
 Definition known_broken (k : cls) : bool :=
@@ -20,6 +22,9 @@ Definition op_claimed (o : op cls) : bool :=
   match o with MulClass k => negb (known_broken k) | _ => true end.
 Definition is_fft (o : op cls) : bool :=
   match o with Propagate Fft => true | _ => false end.
+(* a step that never hands a tilt to a wavefront that had none *)
+Definition untilting (o : op cls) : bool :=
+  forallb (fun w => negb (tilted (next (step observed (St w false) o)))) [WNone; WPupil; WImage].
 
 (* ---- the documentation read on types alone (no tilt bit at all) ---- *)
 Inductive toutcome := TYields (t : wtype) | TRaises (e : exc) (kept : wtype).
